@@ -1,0 +1,112 @@
+//go:build verif
+
+// Contracts for the deductive verifier in /verif (govc): mutual exclusion of
+// index directory operations (C31). Comment-only file, compiled only with
+// -tags verif.
+//
+// The argument is a lock-invariant (resource invariant) proof, sequential per
+// critical section: state protected by a mutex is forgotten when the mutex is
+// acquired, except for the invariant tied to the mutex, and the invariant is
+// re-established before every release. What other goroutines do while the lock
+// is not held is summarised by a rely condition that is exactly what this
+// proof guarantees of the goroutine under verification.
+
+package main
+
+// The instance and repository under discussion (universally quantified: the
+// contracts hold for every mutex and every repository name).
+//@ ghost var imx *indexMutex
+//@ ghost var opRepo string
+// iRun: this goroutine is inside its repository operation f() for opRepo.
+// otherRuns: some other goroutine is inside its f() for opRepo.
+//@ ghost var iRun bool
+//@ ghost var otherRuns bool
+// holdR / holdW: this goroutine holds the read / write side of indexMu.
+//@ ghost var holdR bool
+//@ ghost var holdW bool
+// fCalled: the operation was run; sawBusy: the repository was busy when looked at.
+//@ ghost var fCalled bool
+//@ ghost var sawBusy bool
+
+// Resource invariant of runningMu: the name is in the running set exactly when
+// somebody (this goroutine or another) is inside its operation for it.
+//@ pure func okRunning(m *indexMutex) bool = has(m.running, opRepo) <==> (otherRuns || iRun)
+
+// These contracts describe the two mutexes of indexMutex and are used only
+// when a method of indexMutex is verified (flag only_for).
+// sync.Mutex (assumed): acquiring the lock exposes the protected state in
+// some condition satisfying the resource invariant; other goroutines, which
+// run the same code and therefore never enter an operation for a name that is
+// in the running set, cannot be inside an operation for opRepo while this
+// goroutine is (rely).
+//@ func sync.(*Mutex).Lock
+//@   trusted
+//@   flag only_for=main.(*indexMutex)
+//@   ensures imx != nil ==> okRunning(imx)
+//@   ensures iRun ==> !otherRuns
+//@   assigns otherRuns, fieldof(indexMutex, running), mapof(imx.running)
+//@ func sync.(*Mutex).Unlock
+//@   trusted
+//@   flag only_for=main.(*indexMutex)
+//@   assigns nothing
+
+// sync.RWMutex (assumed semantics: a writer excludes all readers and writers).
+//@ func sync.(*RWMutex).RLock
+//@   trusted
+//@   flag only_for=main.(*indexMutex)
+//@   ensures holdR
+//@   assigns holdR
+//@ func sync.(*RWMutex).RUnlock
+//@   trusted
+//@   flag only_for=main.(*indexMutex)
+//@   requires holdR
+//@   ensures !holdR
+//@   assigns holdR
+//@ func sync.(*RWMutex).Lock
+//@   trusted
+//@   flag only_for=main.(*indexMutex)
+//@   ensures holdW
+//@   assigns holdW
+//@ func sync.(*RWMutex).Unlock
+//@   trusted
+//@   flag only_for=main.(*indexMutex)
+//@   requires holdW
+//@   ensures !holdW
+//@   assigns holdW
+
+// The deferred release: takes the name out of the running set under the lock
+// and re-establishes the invariant before releasing it.
+//@ func main.(*indexMutex).With$1
+//@   requires m != nil && imx == m && opRepo == repoName && iRun
+//@   ghost at call:delete: iRun = false
+//@   assert at call:Unlock: okRunning(m)
+//@   ensures !iRun
+//@   assigns iRun, otherRuns, fieldof(indexMutex, running), allmaps(m.running)
+
+// With: the operation runs only while this goroutine holds the read side of
+// indexMu and is the only one inside an operation for this repository; the
+// invariant holds at every release; the locks are released on return; the
+// result says whether the operation ran, and it is skipped only when the
+// repository was busy.
+//@ func main.(*indexMutex).With
+//@   requires m != nil && f != nil && imx == m && opRepo == repoName && !iRun && !holdR && !fCalled
+//@   requires metricIndexMutexAlreadyRunning != nil && metricIndexMutexRepo != nil
+//@   ghost at call:Unlock#1: iRun = !alreadyRunning
+//@   ghost at call:Unlock#1: sawBusy = alreadyRunning
+//@   assert at call:Unlock#1: okRunning(m)
+//@   assert at call:Unlock#1: !(iRun && otherRuns)
+//@   assert at call:Unlock#1: alreadyRunning ==> otherRuns
+//@   assert at call:f: iRun && !otherRuns && holdR
+//@   ghost at call:f: fCalled = true
+//@   ensures !iRun && !holdR
+//@   ensures result == fCalled
+//@   ensures !result ==> sawBusy
+
+// Global: the operation runs only while this goroutine holds the write side of
+// indexMu (which excludes every With and every other Global), and the lock is
+// released on return.
+//@ func main.(*indexMutex).Global
+//@   requires m != nil && f != nil && metricIndexMutexGlobal != nil && !holdW && !fCalled
+//@   assert at call:f: holdW
+//@   ghost at call:f: fCalled = true
+//@   ensures !holdW && fCalled
